@@ -127,6 +127,14 @@ def build(nfa, tree, start, flags):
                 cur = nx
             else:
                 raise Unsupported("assertion %r" % (av,))
+        elif op == sre_c.ASSERT_NOT and av[0] == -1 and len(av[1]) == 1 and av[1][0][0] in (sre_c.IN, sre_c.LITERAL):
+            # negative look-behind of one byte class: an epsilon edge that may only be taken when the byte consumed
+            # last is not in the class (or nothing was consumed yet)
+            item = av[1][0]
+            forbidden = _charset(item[1]) if item[0] == sre_c.IN else frozenset([item[1]])
+            nx = nfa.new()
+            nfa.cond.append((cur, nx, forbidden))
+            cur = nx
         else:
             raise Unsupported("regex construct %r" % (op,))
     return cur
@@ -143,7 +151,7 @@ def dfa_of(pattern, mode):
         raise Unsupported("str pattern")
     tree = sre_parse.parse(src, pattern.flags)
     nfa = NFA()
-    nfa.dollar, nfa.zed = [], []
+    nfa.dollar, nfa.zed, nfa.cond = [], [], []
     s0 = nfa.new()
     nfa.start_state = s0
     end = build(nfa, list(tree), s0, pattern.flags)
@@ -168,13 +176,21 @@ def dfa_of(pattern, mode):
         nfa.add_eps(end, ACC_END if mode == "fullmatch" else ACC_ANY)
     accepting = {ACC_END, ACC_ANY}
 
-    def closure(S):
+    cond = {}
+    for (a, b, forb) in nfa.cond:
+        cond.setdefault(a, []).append((b, forb))
+
+    def closure(S, last=None):
         st = list(S)
         seen = set(S)
         while st:
             x = st.pop()
             for y in nfa.eps.get(x, ()):
                 if y not in seen:
+                    seen.add(y)
+                    st.append(y)
+            for y, forb in cond.get(x, ()):
+                if (last is None or last not in forb) and y not in seen:
                     seen.add(y)
                     st.append(y)
         return frozenset(seen)
@@ -193,7 +209,7 @@ def dfa_of(pattern, mode):
                 for bs, y in nfa.trans.get(x, ()):
                     if b in bs:
                         T.add(y)
-            T = closure(T)
+            T = closure(T, b)
             if T not in states:
                 states[T] = len(order)
                 order.append(T)
